@@ -49,6 +49,9 @@ class P(ServeProp):
             R.append(b"POST /form-url-encoded-enctype-post-method HTTP/1.1\r\nContent-Type: application/x-www-form-urlencoded\r\n\r\n" + body)
             R.append(b"POST /form-url-encoded-enctype-post-method HTTP/1.1\r\nContent-Type: application/x-www-form-urlencoded\r\nContent-Length: %d\r\n\r\n" % len(body) + body)
         R.append(b"POST /form-url-encoded-enctype-post-method HTTP/1.1\r\nContent-Type: application/x-www-form-urlencoded\r\n\r\nu=bob")
+        # requests that announce a body no allocation can hold, or no number at all: whatever they do to themselves, the others are answered as alone
+        for cl in [b"4611686018427387904", b"18446744073709551615", b"1099511627776", b"-1", b"abc"]:
+            R.append(b"POST /form-url-encoded-enctype-post-method HTTP/1.1\r\nContent-Type: application/x-www-form-urlencoded\r\nContent-Length: " + cl + b"\r\n\r\na=1")
         return R
 
     def extra(self, tier, seed, work, notes):
